@@ -730,11 +730,15 @@ def role_tokens(repo, col, prop):
         n = node
         while True:
             if isinstance(n, ast.Attribute):
+                if n.attr == "base":
+                    break   # `<view>.base` is the whole module, whichever view it is reached from: it has no role
                 out |= set(re.split(r"[_\W]+", n.attr.lower()))
                 n = n.value
             elif isinstance(n, ast.Subscript):
                 if isinstance(n.slice, ast.Constant) and isinstance(n.slice.value, str):
                     out |= set(re.split(r"[_\W]+", n.slice.value.lower()))
+                elif isinstance(n.slice, (ast.Name, ast.Attribute)):
+                    out |= spine_toks(n.slice)   # rows selected by an index: the role of `table[rows]` is that of the rows as well
                 n = n.value
             elif isinstance(n, ast.Call):
                 f = n.func
